@@ -31,6 +31,7 @@
 #include <forward_list>
 #include <algorithm>
 #include <chrono>
+#include <atomic>
 
 namespace bloc
 {
@@ -468,7 +469,8 @@ private:
   bool _parsing = false;
   bool _breakCondition = false;
   bool _continueCondition = false;
-  bool _returnCondition = false;
+  /* set asynchronously by the host (bloc_break, signal handler) while running */
+  std::atomic<bool> _returnCondition { false };
 
   Value * _returned = nullptr;
 
